@@ -119,6 +119,8 @@ pub fn variants(src: &str, rng: &mut Rng) -> Vec<(String, &'static str)> {
   // long runs of multi-byte characters on the line of a match: hundreds of continuation bytes before a column
   let wide = match rng.below(3) { 0 => "é".repeat(300), 1 => "日本語".repeat(60), _ => format!("{}{}", "😀".repeat(90), "ö".repeat(40)) };
   v.push((format!("/* {wide} */ {}", src), "long-wide-line"));
+  // a file saved with a byte order mark: three bytes (one character) in front of the first token
+  v.push((format!("{}{}", '\u{feff}', src.trim_start()), "byte-order-mark"));
   v
 }
 
@@ -264,7 +266,7 @@ pub fn run(o: &Opts) {
       }
     }
   }
-  out.finish("files in 6 variants (as is, CRLF, no trailing newline, multi-byte text in front of code, a 3000-character first line, a first line with hundreds of multi-byte characters) searched with patterns cut from them, random context flags (-A/-B/-C 1..3), \
+  out.finish("files in 7 variants (as is, CRLF, no trailing newline, multi-byte text in front of code, a 3000-character first line, a first line with hundreds of multi-byte characters, a leading byte order mark) searched with patterns cut from them, random context flags (-A/-B/-C 1..3), \
               the three JSON styles, optional -r: every record's text, byteOffset, line/character column of both ends, lines, charCount, every meta-variable and label and replacementOffsets are recomputed from the file bytes; \
               the output must parse as JSON (array, or one object per line); every path:line:text entry of the plain report must carry that line of the file. non-trivial = at least one record");
 }
